@@ -639,6 +639,11 @@ fn spawn_async_ao_list_in_task'''),
         ('array-keys-not-quoted', 'brush-core/src/commands.rs', "                                s.push_str(&escape::quote_if_needed(\n                                    key.to_string().as_str(),\n                                    escape::QuoteMode::SingleQuote,\n                                ));", "                                s.push_str(key.to_string().as_str());"),
         ('elements-not-separated', 'brush-core/src/commands.rs', "                            if i > 0 {\n                                s.push(' ');\n                            }", "                            if i > 1 {\n                                s.push(' ');\n                            }"),
     ],
+    'U35': [
+        ('handler-word-that-names-a-signal-resets-instead', 'brush-builtins/src/trap.rs', "            Ok(ExecutionResult::success())\n        } else {\n            let handler = &self.args[0];", "            Ok(ExecutionResult::success())\n        } else if self.args[0].parse::<TrapSignal>().is_ok() {\n            for signal in &self.args {\n                Self::remove_all_handlers(&mut context, signal.parse()?);\n            }\n            Ok(ExecutionResult::success())\n        } else {\n            let handler = &self.args[0];"),
+        ('handler-also-installed-for-its-own-name', 'brush-builtins/src/trap.rs', "            for signal in &self.args[1..] {\n                signal_types.push(signal.parse()?);\n            }", "            for signal in &self.args {\n                if let Ok(s) = signal.parse() { signal_types.push(s); }\n            }"),
+        ('dash-form-skips-the-first-condition', 'brush-builtins/src/trap.rs', "            for signal in &self.args[1..] {\n                Self::remove_all_handlers(&mut context, signal.parse()?);\n            }", "            for signal in &self.args[2..] {\n                Self::remove_all_handlers(&mut context, signal.parse()?);\n            }"),
+    ],
     'U34': [
         ('unset-readonly-variable-accepts-its-first-value', 'brush-core/src/variables.rs', "    pub fn assign(&mut self, value: ShellValueLiteral, append: bool) -> Result<(), error::Error> {\n        if self.is_readonly() {", "    pub fn assign(&mut self, value: ShellValueLiteral, append: bool) -> Result<(), error::Error> {\n        if self.is_readonly() && self.value.is_set() {"),
         ('declare-in-a-function-looks-everywhere', 'brush-builtins/src/declare.rs', "        let lookup = if create_var_local {", "        let lookup = if matches!(verb, DeclareVerb::Local) {"),
